@@ -65,9 +65,6 @@ NATIVE_UNITS = {
     "template_location_known": {"file": "src/interpreter/interpreter.rs", "source": "eval_location.rs",
                                 "modpath": "interpreter::interpreter", "test": "verif_native_template_location_known", "role": "known",
                                 "finding": "template-location"},
-    "chain_type_known": {"file": "src/interpreter/interpreter.rs", "source": "eval_location.rs",
-                         "modpath": "interpreter::interpreter", "test": "verif_native_chain_type_known", "role": "known",
-                         "finding": "comparison-decided-before-type-check"},
     "callee_location_known": {"file": "src/interpreter/interpreter.rs", "source": "eval_location.rs",
                               "modpath": "interpreter::interpreter", "test": "verif_native_callee_location_known", "role": "known",
                               "finding": "callee-body-location"},
@@ -262,7 +259,7 @@ PROPS = {
         "assumptions": ["functional oracle for the opaque evaluator: one evaluation of the test and two are not distinguished"],
     },
     "C08": {
-        "verus": ["interp_tail", "interp_eval_kind", "values_num", "valref_mut", "base_cmp", "base_pairs"], "kani": ["values"], "native": ["tail_arity_witness", "eval_kind_witness", "vector_kind_witness", "after_error_witness", "chain_type_known"],
+        "verus": ["interp_tail", "interp_eval_kind", "values_num", "valref_mut", "base_cmp", "base_pairs"], "kani": ["values"], "native": ["tail_arity_witness", "eval_kind_witness", "vector_kind_witness", "after_error_witness"],
         "level": "proof",
         "explanation": "The argument-count test is proved to hold before EVERY hand-over to apply_scheme_procedure / a builtin body in the "
                        "trampoline loop (first call and every tail call), and an unacceptable count is proved to yield the ArgumentMissMatch "
@@ -333,7 +330,7 @@ PROPS = {
                        "on every pair of representations with positive denominators (all i32), and the comparison of the "
                        "converted operands when one is inexact -- for ALL operands, so Number obeys its eq/partial_cmp specs and the derived "
                        "operators == < > <= >= are proved to follow (witness_operators). The five macro-generated chains = < > <= >= of "
-                       "base.rs are proved to examine their arguments left to right and to return the conjunction of the adjacent pairs; "
+                       "base.rs are proved to type-check EVERY argument (a non-number anywhere is the TypeMisMatch error) and, on numbers, to return exactly the conjunction of the adjacent pairs; "
                        "max / min are proved to be the left fold of a binary step that is proved (lemma_maxmin_step) to return the "
                        "numerically extreme operand, exact iff both operands are exact.",
         "unverified": ["identity of list cells in eqv? (std::ptr::eq, no contract)",
